@@ -328,3 +328,34 @@ def c07(c):
         exhaustive=False,
         assumptions=["ASan left-edge granularity is 8 bytes (exact for 8-aligned footprints); the byte diff is exact regardless",
                      "enumerations keep their host representation (RLBox's ABI description has no enum entry)"]))
+
+
+# --------------------------------------------------------------------- C10
+@plan("C10")
+def c10(c):
+    units = [dict(name="c10_ilp32", srcs=[D + "c10_bulk.cpp"], build="asan0",
+                  defs=EXC + ["CFG=vsbx_ilp32", "RLBOX_USE_STATIC_CALLS()=rlbox_noop_sandbox_lookup_symbol"])]
+    runs = [dict(unit="c10_ilp32", label="c10_ilp32[p%d]" % p, args=[p]) for p in range(6)]
+    if c.thorough:
+        units.append(dict(name="c10_ilp32f", srcs=[D + "c10_bulk.cpp"], build="asan0",
+                          defs=EXC + ["CFG=vsbx_ilp32f", "RLBOX_USE_STATIC_CALLS()=rlbox_noop_sandbox_lookup_symbol"]))
+        runs += [dict(unit="c10_ilp32f", label="c10_ilp32f[p%d]" % p, args=[p]) for p in range(6)]
+        units.append(dict(name="c10_clang", srcs=[D + "c10_bulk.cpp"], build="clang-asan",
+                          defs=EXC + ["CFG=vsbx_ilp32", "RLBOX_USE_STATIC_CALLS()=rlbox_noop_sandbox_lookup_symbol"]))
+        runs += [dict(unit="c10_clang", label="c10_clang[p%d]" % p, args=[p], count_distinct=False) for p in range(6)]
+    return dict(units=units, runs=runs, evidence=dict(
+        level="exploration",
+        rule="case = (operation, start, extent, operand form). Operations: memset (size as size_t / tainted<size_t> / int / tainted<int> incl. negative), "
+             "memcpy (tainted<-tainted, tainted<-application heap/stack/global, raw pointer into another live sandbox, raw range running into the "
+             "region, null), memcmp (same source kinds), copy_and_verify_range, copy_and_verify_buffer_address, unverified_safe_pointer_because "
+             "(element types char, short, int, long, long long, char16_t, float, double), copy_and_verify_string (both verifier flavours; "
+             "terminator interior / in the last byte / missing up to the last byte), copy_memory_or_grant_access and _deny_access (copy path on the "
+             "model backend, hand-through path on the noop backend). Starts: null, first byte, last byte, end-e for e=0..16, interior. Extents: "
+             "0..32, to-end-1/to-end/to-end+1, size+-1, 2^31, 2^32, 2^63, 2^64-1, 2^64/elsize+-k (byte counts wrapping 64 bits), random. Oracle: "
+             "reference legality in 128-bit arithmetic (sandbox-side range non-null, non-empty, wholly inside one region; application-side range "
+             "wholly outside every region): illegal => abort / allocation failure; legal => no abort and exactly the specified effect (region "
+             "byte diff, memcmp sign, delivered content); everything outside the given ranges is ASan-poisoned during the call; empty requests are "
+             "not judged except that they must not write. Where host and guest element sizes differ the oracle requires abort only if illegal "
+             "under both readings and success only if legal under both.",
+        exhaustive=False,
+        assumptions=["overlapping source/destination inside the sandbox is not driven (std::memcpy semantics undefined)"]))
